@@ -8,7 +8,9 @@
 //   areal n es uW f64 <src double bits, 16 hex> => <encoding>
 //   areal n es uW tod <encoding> => <double bits of to_native<double>> <encoding of areal(that double)>
 //   areal n es uW tof <encoding> => <float bits of to_native<float>> <encoding of areal(that float)>
-// to_native shifts `1ull << -exponent`: undefined for es >= 8, those configurations never execute tod/tof here.
+//   areal n es uW told <encoding> => <to_native<long double> as a virtual binary79 pattern: sign | 15 exponent bits | 63 fraction bits>
+// tod lines exist for es <= 10 (binary64 holds every value), tof lines for es <= 7, told lines for the sampled (nbits > 12)
+// configurations with es <= 10 (the factor 2^exponent is built in double) on x86-64 (80-bit long double).
 #include <cmath>
 #include <iostream>
 #include <universal/number/areal/areal.hpp>
@@ -56,14 +58,32 @@ struct Run {
 		std::printf("areal %u %u %s f64 %016llx => %llx\n", nbits, es, BTN, (ull)src, (ull)enc(a));
 	}
 	static void native(uint64_t b) {
-		if constexpr (es <= 7) {
+		// to_native<double>: es <= 10 keeps 2^exponent inside binary64's normal range (|exponent| <= 512); es >= 8 takes the
+		// ipow branch for exponents below -63 (the shift `1ull << -exponent` was undefined there before the repair)
+		if constexpr (es <= 10) {
 			A a = mk(b);
 			if constexpr (fbits <= 52) {
 				double d = a.template to_native<double>();
 				A back; back.setbits(0x5a5a5a5a5a5a5a5aull & uv::mask(nbits)); back = d;
 				std::printf("areal %u %u %s tod %llx => %016llx %llx\n", nbits, es, BTN, (ull)b, (ull)uv::double2bits(d), (ull)enc(back));
 			}
-			if constexpr (fbits <= 21) {
+		}
+#if defined(__x86_64__) && __LDBL_MANT_DIG__ == 64
+		if constexpr (es <= 10 && nbits > 12 && fbits <= 63) {
+			A a = mk(b);
+			long double ld = a.template to_native<long double>();
+			unsigned char raw[16] = {0}; std::memcpy(raw, &ld, 10);
+			uint64_t m; uint16_t se; std::memcpy(&m, raw, 8); std::memcpy(&se, raw + 8, 2);
+			// virtual pattern with an implicit leading bit: every value an areal of es <= 10 can hold is a normal long double
+			uint64_t hi = (uint64_t(se) >> 1);                       // sign and the 14 upper exponent bits
+			uint64_t lo = (uint64_t(se & 1u) << 63) | (m & 0x7fffffffffffffffull);
+			if (hi) std::printf("areal %u %u %s told %llx => %llx%016llx\n", nbits, es, BTN, (ull)b, (ull)hi, (ull)lo);
+			else std::printf("areal %u %u %s told %llx => %llx\n", nbits, es, BTN, (ull)b, (ull)lo);
+		}
+#endif
+		if constexpr (es <= 7) {
+			A a = mk(b);
+			if constexpr (fbits <= 23) {
 				float f = a.template to_native<float>();
 				A back; back.setbits(0xa5a5a5a5a5a5a5a5ull & uv::mask(nbits)); back = f;
 				std::printf("areal %u %u %s tof %llx => %08x %llx\n", nbits, es, BTN, (ull)b, uv::float2bits(f), (ull)enc(back));
@@ -103,28 +123,32 @@ struct Run {
 		uint64_t m; int e2; fields(mag, m, e2);
 		for (int sgn = 0; sgn < 2; ++sgn) {
 			uint32_t fb;
-			if (fbits < 23 && as_float(m, e2, fb)) {
+			if (nbits <= 32 && as_float(m, e2, fb)) {                 // operator=(float) assembles the encoding in a uint32_t
 				uint32_t S = sgn ? 0x80000000u : 0u;
-				const unsigned sh = 23 - fbits;               // source bits below the target lsb (normal targets)
 				from_f32(S | fb);                              // the exact value
 				if ((fb & 0x7fffffffu) != 0) from_f32(S | (fb - 1)); // one source ulp toward zero
 				from_f32(S | (fb + 1));                        // one source ulp away from zero
-				from_f32(S | (fb | (1u << (sh - 1))));         // the highest dropped bit only (lands on the ubit position)
-				if (sh >= 2) from_f32(S | (fb | (1u << (unsigned)g.below(sh - 1))));   // one random lower dropped bit
-				from_f32(S | (fb + (uint32_t)(g.next() & uv::mask(sh))));              // somewhere between this value and the next
-				from_f32(S | (fb + (uint32_t)uv::mask(sh)));   // one source ulp below the next target value
+				if constexpr (fbits < 23) {
+					const unsigned sh = 23 - fbits;               // source bits below the target lsb (normal targets)
+					from_f32(S | (fb | (1u << (sh - 1))));         // the highest dropped bit only (lands on the ubit position)
+					if (sh >= 2) from_f32(S | (fb | (1u << (unsigned)g.below(sh - 1))));   // one random lower dropped bit
+					from_f32(S | (fb + (uint32_t)(g.next() & uv::mask(sh))));              // somewhere between this value and the next
+					from_f32(S | (fb + (uint32_t)uv::mask(sh)));   // one source ulp below the next target value
+				}
 			}
 			uint64_t db;
-			if (fbits < 52 && as_double(m, e2, db)) {
+			if (nbits <= 64 && as_double(m, e2, db)) {
 				uint64_t S = sgn ? 0x8000000000000000ull : 0ull;
-				const unsigned sh = 52 - fbits;
 				from_f64(S | db);
 				if ((db & 0x7fffffffffffffffull) != 0) from_f64(S | (db - 1));
 				from_f64(S | (db + 1));
-				from_f64(S | (db | (1ull << (sh - 1))));
-				if (sh >= 2) from_f64(S | (db | (1ull << g.below(sh - 1))));
-				from_f64(S | (db + (g.next() & uv::mask(sh))));
-				from_f64(S | (db + uv::mask(sh)));
+				if constexpr (fbits < 52) {
+					const unsigned sh = 52 - fbits;
+					from_f64(S | (db | (1ull << (sh - 1))));
+					if (sh >= 2) from_f64(S | (db | (1ull << g.below(sh - 1))));
+					from_f64(S | (db + (g.next() & uv::mask(sh))));
+					from_f64(S | (db + uv::mask(sh)));
+				}
 			}
 		}
 	}
@@ -137,25 +161,25 @@ struct Run {
 				const int exps[] = { MAX_EXP - 2, MAX_EXP - 1, MAX_EXP, MAX_EXP + 1, MAX_EXP + 2, MAX_EXP + 17, MIN_SUB + 1, MIN_SUB, MIN_SUB - 1, MIN_SUB - 2, MIN_SUB - 40, 0, 1 - bias, -bias };
 				for (int e : exps) {
 					for (int shape = 0; shape < 6; ++shape) {
-						if (fbits < 22 && e + 127 >= 1 && e + 127 <= 254) {
+						if (nbits <= 32 && e + 127 >= 1 && e + 127 <= 254) {
 							uint32_t fr;
 							switch (shape) {
 							case 0: fr = 0; break;
 							case 1: fr = 0x7fffffu; break;
-							case 2: fr = (uint32_t)(uv::mask(fbits) << (23 - fbits)); break;            // top fbits all ones, rest zero
-							case 3: fr = (uint32_t)(uv::mask(fbits) << (23 - fbits)) | 1u; break;       // … plus the lowest bit
+							case 2: fr = fbits < 23 ? (uint32_t)(uv::mask(fbits) << ((23 - fbits) & 31)) : 0x7fffffu; break;      // top fbits all ones, rest zero
+							case 3: fr = (fbits < 23 ? (uint32_t)(uv::mask(fbits) << ((23 - fbits) & 31)) : 0x7ffffeu) | 1u; break; // … plus the lowest bit
 							case 4: fr = 1u; break;
 							default: fr = (uint32_t)g.next() & 0x7fffffu; break;
 							}
 							from_f32((sgn ? 0x80000000u : 0u) | ((uint32_t)(e + 127) << 23) | fr);
 						}
-						if (fbits < 51 && e + 1023 >= 1 && e + 1023 <= 2046) {
+						if (nbits <= 64 && e + 1023 >= 1 && e + 1023 <= 2046) {
 							uint64_t fr;
 							switch (shape) {
 							case 0: fr = 0; break;
 							case 1: fr = uv::mask(52); break;
-							case 2: fr = uv::mask(fbits) << (52 - fbits); break;
-							case 3: fr = (uv::mask(fbits) << (52 - fbits)) | 1ull; break;
+							case 2: fr = fbits < 52 ? uv::mask(fbits) << ((52 - fbits) & 63) : uv::mask(52); break;
+							case 3: fr = (fbits < 52 ? uv::mask(fbits) << ((52 - fbits) & 63) : uv::mask(52) - 1) | 1ull; break;
 							case 4: fr = 1ull; break;
 							default: fr = g.next() & uv::mask(52); break;
 							}
@@ -165,19 +189,27 @@ struct Run {
 				}
 				// specials
 				const uint32_t S32 = sgn ? 0x80000000u : 0u; const uint64_t S64 = sgn ? 0x8000000000000000ull : 0ull;
-				if (fbits < 22) {
+				if (nbits <= 32) {
 					from_f32(S32); from_f32(S32 | 0x7f800000u);
 					from_f32(S32 | 0x7f800001u); from_f32(S32 | 0x7fc00000u);                              // the two recognised NaN patterns
 					from_f32(S32 | 0x7fa00000u); from_f32(S32 | 0x7fc00001u); from_f32(S32 | 0x7f800000u | ((uint32_t)g.next() & 0x7fffffu) | 2u); // other payloads
 					// float subnormals
 					from_f32(S32 | 1u); from_f32(S32 | 0x007fffffu); from_f32(S32 | 0x00400000u); from_f32(S32 | ((uint32_t)g.next() & 0x7fffffu) | 1u);
 					from_f32(S32 | (1u << g.below(23))); from_f32(S32 | 0x00800000u);
+					// float subnormals shaped like target lattice points: a few leading bits, one low bit, all ones below the msb
+					{ unsigned k = (unsigned)g.below(23); uint32_t top = 1u << k;
+					  from_f32(S32 | top | (top >> 1)); from_f32(S32 | top | 1u); from_f32(S32 | (top | (top - 1)));
+					  from_f32(S32 | top | ((uint32_t)g.next() & (top - 1) & ~(uint32_t)uv::mask(k > 4 ? k - 4 : 0))); }
 				}
-				if (fbits < 51) {
+				if (nbits <= 64) {
 					from_f64(S64); from_f64(S64 | 0x7ff0000000000000ull);
 					from_f64(S64 | 0x7ff0000000000001ull); from_f64(S64 | 0x7ff8000000000000ull);
 					from_f64(S64 | 0x7ff4000000000000ull); from_f64(S64 | 0x7ff8000000000001ull); from_f64(S64 | 0x7ff0000000000000ull | (g.next() & uv::mask(52)) | 2ull);
 					from_f64(S64 | 1ull); from_f64(S64 | uv::mask(52)); from_f64(S64 | (g.next() & uv::mask(52)) | 1ull); from_f64(S64 | 0x0010000000000000ull);
+					// double subnormals: single bits, a few leading bits, all ones below the msb
+					{ unsigned k = (unsigned)g.below(52); uint64_t top = 1ull << k;
+					  from_f64(S64 | top); from_f64(S64 | top | (top >> 1)); from_f64(S64 | top | 1ull); from_f64(S64 | (top | (top - 1)));
+					  from_f64(S64 | top | (g.next() & (top - 1) & ~uv::mask(k > 4 ? k - 4 : 0))); from_f64(S64 | 0x0008000000000000ull); }
 				}
 			}
 		}
@@ -208,6 +240,15 @@ struct Run {
 			}
 			mag &= ~1ull;
 			if (g_assign && is_exact_finite(mag)) from_target(mag, g);
+			if (g_native && (i % 4) == 0) {
+				// near-special encodings: the inf / NaN / maxpos patterns with one limb (of any of the three limb widths) replaced
+				uint64_t pat = (g.below(3) == 0 ? MM : (g.coin() ? (MM & ~1ull) : (MM & ~3ull))) | (g.coin() ? (1ull << (nbits - 1)) : 0);
+				const unsigned w = 8u << g.below(3);
+				const unsigned j = (unsigned)g.below((nbits + w - 1) / w);
+				const uint64_t lm = (w == 64 ? ~0ull : ((1ull << w) - 1)) << (j * w);
+				uint64_t repl; switch (g.below(3)) { case 0: repl = 0; break; case 1: repl = g.next(); break; default: repl = pat ^ (1ull << (j * w + g.below(w))); }
+				native(((pat & ~lm) | (repl & lm)) & uv::mask(nbits));
+			}
 			if (g_native) { uint64_t b = (g.next() & uv::mask(nbits)); native(b); native(mag | (g.coin() ? (1ull << (nbits - 1)) : 0) | (g.coin() ? 1 : 0)); }
 			if (g_assign && (i % 256) == 0) extras(g, 1);
 		}
@@ -220,7 +261,10 @@ struct Run {
 	X(9,1) X(9,2) X(9,3) X(9,4) X(9,5) X(9,6) X(10,1) X(10,2) X(10,3) X(10,4) X(10,5) X(10,6) X(10,7) \
 	X(11,1) X(11,2) X(11,3) X(11,4) X(11,5) X(11,6) X(11,7) X(11,8) \
 	X(12,1) X(12,2) X(12,3) X(12,4) X(12,5) X(12,6) X(12,7) X(12,8) X(12,9)
-#define LARGE(X) X(16,5) X(16,8) X(17,5) X(20,8) X(24,8) X(24,5) X(32,8) X(32,11) X(33,8) X(48,11) X(64,11)
+// (32,8) (64,11): target fraction one bit narrower than the source (shift 0); (27,2) (59,5): as wide as the source;
+// (28,2) (32,5) (32,2) (60,5) (64,8) (64,2): wider than the source (left shift); es >= 8 / >= 11: float / double subnormals are in range
+#define LARGE(X) X(16,5) X(16,8) X(17,5) X(20,8) X(24,8) X(24,5) X(32,8) X(32,11) X(33,8) X(48,11) X(64,11) \
+	X(27,2) X(28,2) X(32,5) X(32,2) X(59,5) X(60,5) X(64,8) X(64,2) X(20,12) X(40,12) X(16,10) X(62,7) X(64,10)
 
 int main(int argc, char** argv) {
 	if (argc < 4) { std::fprintf(stderr, "usage: h_areal exh|rnd nbits es [count] [all|assign|native]\n"); return 2; }
